@@ -1,0 +1,184 @@
+//go:build verif
+
+// This file is only compiled with -tags verif. It adds observation modes used by the
+// verification harness in /verif (selected with PIGEON_VERIF_MODE); without the tag, or with the
+// variable unset, pigeon behaves exactly as before.
+package main
+
+import (
+	"bytes"
+	"crypto/sha256"
+	"fmt"
+	"io"
+	"os"
+	"sort"
+	"strconv"
+	"strings"
+
+	"golang.org/x/tools/imports"
+
+	"github.com/mna/pigeon/ast"
+	"github.com/mna/pigeon/bootstrap"
+	"github.com/mna/pigeon/builder"
+)
+
+func init() {
+	mode := os.Getenv("PIGEON_VERIF_MODE")
+	if mode == "" {
+		return
+	}
+	switch mode {
+	case "astdump":
+		// parse stdin with the generated front-end and dump the AST
+		g, err := ParseReader("stdin", os.Stdin)
+		if err != nil {
+			fmt.Println("PARSE-ERROR:", err)
+			os.Exit(3)
+		}
+		verifDump(os.Stdout, g.(*ast.Grammar))
+	case "astdump-bootstrap":
+		// parse stdin with the hand-written bootstrap front-end and dump the AST
+		g, err := bootstrap.NewParser().Parse("stdin", os.Stdin)
+		if err != nil {
+			fmt.Println("PARSE-ERROR:", err)
+			os.Exit(3)
+		}
+		verifDump(os.Stdout, g)
+	case "multibuild":
+		// parse + (optimize) + build the same text k times inside one process, print one digest each
+		src, _ := io.ReadAll(os.Stdin)
+		k, _ := strconv.Atoi(os.Getenv("PIGEON_VERIF_K"))
+		flags := map[string]bool{}
+		for _, f := range strings.Split(os.Getenv("PIGEON_VERIF_FLAGS"), ",") {
+			flags[strings.TrimSpace(f)] = true
+		}
+		var entry []string
+		if e := os.Getenv("PIGEON_VERIF_ENTRYPOINTS"); e != "" {
+			entry = strings.Split(e, ",")
+		}
+		for i := 0; i < k; i++ {
+			g, err := ParseReader("stdin", bytes.NewReader(src))
+			if err != nil {
+				fmt.Println("PARSE-ERROR:", err)
+				os.Exit(3)
+			}
+			gr := g.(*ast.Grammar)
+			if flags["optimize-grammar"] {
+				ast.Optimize(gr, entry...)
+			}
+			var out bytes.Buffer
+			err = builder.BuildParser(&out, gr,
+				builder.Optimize(flags["optimize-parser"]),
+				builder.BasicLatinLookupTable(flags["optimize-basic-latin"]),
+				builder.Nolint(flags["nolint"]),
+				builder.SupportLeftRecursion(flags["support-left-recursion"]))
+			if err != nil {
+				fmt.Println("BUILD-ERROR:", err)
+				os.Exit(5)
+			}
+			b := out.Bytes()
+			if f, err := imports.Process("filename", b, &imports.Options{TabWidth: 8, TabIndent: true, Comments: true, Fragment: true}); err == nil {
+				b = f
+			}
+			fmt.Printf("%x\n", sha256.Sum256(b))
+		}
+	case "uclasses":
+		names := make([]string, 0, len(unicodeClasses))
+		for k := range unicodeClasses {
+			names = append(names, k)
+		}
+		sort.Strings(names)
+		for _, n := range names {
+			fmt.Println(n)
+		}
+	default:
+		fmt.Fprintln(os.Stderr, "unknown PIGEON_VERIF_MODE", mode)
+		os.Exit(2)
+	}
+	os.Exit(0)
+}
+
+func verifPos(p ast.Pos) string { return fmt.Sprintf("%d:%d:%d", p.Line, p.Col, p.Off) }
+
+func verifDump(w io.Writer, g *ast.Grammar) {
+	fmt.Fprintf(w, "Grammar %s\n", verifPos(g.Pos()))
+	if g.Init != nil {
+		fmt.Fprintf(w, " Init %s code=%q\n", verifPos(g.Init.Pos()), g.Init.Val)
+	}
+	for _, r := range g.Rules {
+		fmt.Fprintf(w, " Rule %s name=%q namepos=%s", verifPos(r.Pos()), r.Name.Val, verifPos(r.Name.Pos()))
+		if r.DisplayName != nil {
+			fmt.Fprintf(w, " display=%q", r.DisplayName.Val)
+		}
+		fmt.Fprintln(w)
+		verifDumpExpr(w, r.Expr, 2)
+	}
+}
+
+func verifDumpExpr(w io.Writer, e ast.Expression, depth int) {
+	ind := strings.Repeat(" ", depth)
+	if e == nil {
+		fmt.Fprintf(w, "%snil\n", ind)
+		return
+	}
+	p := verifPos(e.Pos())
+	switch e := e.(type) {
+	case *ast.ChoiceExpr:
+		fmt.Fprintf(w, "%sChoice %s\n", ind, p)
+		for _, a := range e.Alternatives {
+			verifDumpExpr(w, a, depth+1)
+		}
+	case *ast.SeqExpr:
+		fmt.Fprintf(w, "%sSeq %s\n", ind, p)
+		for _, a := range e.Exprs {
+			verifDumpExpr(w, a, depth+1)
+		}
+	case *ast.ActionExpr:
+		fmt.Fprintf(w, "%sAction %s code=%q codepos=%s\n", ind, p, e.Code.Val, verifPos(e.Code.Pos()))
+		verifDumpExpr(w, e.Expr, depth+1)
+	case *ast.LabeledExpr:
+		fmt.Fprintf(w, "%sLabeled %s label=%q\n", ind, p, e.Label.Val)
+		verifDumpExpr(w, e.Expr, depth+1)
+	case *ast.AndExpr:
+		fmt.Fprintf(w, "%sAnd %s\n", ind, p)
+		verifDumpExpr(w, e.Expr, depth+1)
+	case *ast.NotExpr:
+		fmt.Fprintf(w, "%sNot %s\n", ind, p)
+		verifDumpExpr(w, e.Expr, depth+1)
+	case *ast.ZeroOrOneExpr:
+		fmt.Fprintf(w, "%sZeroOrOne %s\n", ind, p)
+		verifDumpExpr(w, e.Expr, depth+1)
+	case *ast.ZeroOrMoreExpr:
+		fmt.Fprintf(w, "%sZeroOrMore %s\n", ind, p)
+		verifDumpExpr(w, e.Expr, depth+1)
+	case *ast.OneOrMoreExpr:
+		fmt.Fprintf(w, "%sOneOrMore %s\n", ind, p)
+		verifDumpExpr(w, e.Expr, depth+1)
+	case *ast.RuleRefExpr:
+		fmt.Fprintf(w, "%sRuleRef %s name=%q\n", ind, p, e.Name.Val)
+	case *ast.LitMatcher:
+		fmt.Fprintf(w, "%sLit %s val=%q ic=%t\n", ind, p, e.Val, e.IgnoreCase)
+	case *ast.CharClassMatcher:
+		fmt.Fprintf(w, "%sClass %s raw=%q chars=%q ranges=%q classes=%q ic=%t inv=%t\n", ind, p, e.Val, string(e.Chars), string(e.Ranges), e.UnicodeClasses, e.IgnoreCase, e.Inverted)
+	case *ast.AnyMatcher:
+		fmt.Fprintf(w, "%sAny %s\n", ind, p)
+	case *ast.AndCodeExpr:
+		fmt.Fprintf(w, "%sAndCode %s code=%q codepos=%s\n", ind, p, e.Code.Val, verifPos(e.Code.Pos()))
+	case *ast.NotCodeExpr:
+		fmt.Fprintf(w, "%sNotCode %s code=%q codepos=%s\n", ind, p, e.Code.Val, verifPos(e.Code.Pos()))
+	case *ast.StateCodeExpr:
+		fmt.Fprintf(w, "%sStateCode %s code=%q codepos=%s\n", ind, p, e.Code.Val, verifPos(e.Code.Pos()))
+	case *ast.ThrowExpr:
+		fmt.Fprintf(w, "%sThrow %s label=%q\n", ind, p, e.Label)
+	case *ast.RecoveryExpr:
+		labels := make([]string, len(e.Labels))
+		for i, l := range e.Labels {
+			labels[i] = string(l)
+		}
+		fmt.Fprintf(w, "%sRecovery %s labels=%q\n", ind, p, labels)
+		verifDumpExpr(w, e.Expr, depth+1)
+		verifDumpExpr(w, e.RecoverExpr, depth+1)
+	default:
+		fmt.Fprintf(w, "%sUnknown %T %s\n", ind, e, p)
+	}
+}
